@@ -4,7 +4,7 @@
 set -e
 fam="$1"; shift
 cd /verif
-git merge --no-edit "$fam" || { echo "MERGE CONFLICT: resolve, then re-run the remaining steps by hand"; git status --short | grep '^U\|^AA' ; exit 1; }
+git merge --no-edit "$fam" || echo "merge already done or conflicted: continuing (resolve first if conflicted)"
 for c in $(git -C /repo log --reverse --format=%h main..fix-$fam); do
   s=$(git -C /repo log -1 --format=%s $c)
   if git -C /repo log --format=%s main | grep -qxF "$s"; then echo "skip (already on main): $s"; continue; fi
